@@ -454,7 +454,10 @@ func (s *state) formatRecursive(err error, isOutermost, withDetail, withDepth bo
 		// various interfaces first.
 		printDone := false
 		for _, fn := range specialCases {
-			if handled, desiredShortening := fn(err, (*safePrinter)(s), cause == nil /* leaf */); handled {
+			// A multi-cause error is not a leaf: its message contains those
+			// of its causes, which may be unsafe.
+			isLeaf := cause == nil && len(causes) == 0
+			if handled, desiredShortening := fn(err, (*safePrinter)(s), isLeaf); handled {
 				printDone = true
 				bufIsRedactable = true
 				if desiredShortening == nil {
